@@ -549,6 +549,7 @@ def custom(pid, a, check):
         for d in artifact_dirs[t]:
             arts += sorted(glob.glob(os.path.join(d, t + ".*")), key=lambda p: (os.path.getsize(p), p))
         by_kind = {}
+        timeouts_examined = 0
         for p in arts:
             base = os.path.basename(p)[len(t) + 1:]
             if base.startswith("oom-"):
@@ -558,6 +559,10 @@ def custom(pid, a, check):
                 ignored["slow-unit"] += 1
                 continue
             if base.startswith("timeout-"):
+                # smallest first; one confirmed hang is enough, and at most three candidates are examined (3 x 30 s each)
+                if "hang" in by_kind or timeouts_examined >= 3:
+                    continue
+                timeouts_examined += 1
                 if confirm_hang(cx, p):
                     by_kind.setdefault("hang", []).append((p, "hang", "ERROR: libFuzzer: timeout, confirmed 3x in isolation with a 30 s limit"))
                 else:
